@@ -144,7 +144,7 @@ class Gen:
         if name in ("add_simplices_from", "add_edges_from"):
             fmt = r.choice([1, 1, 1, 2, 3, 4, 5, 5])
             return {"op": name, "fmt": fmt, "items": self.items(fmt), "max_order": r.choice(MAX_ORDERS),
-                    "attr": enc_attrs_req(self.attrs(0.3))}
+                    "attr": enc_attrs_req(self.attrs(0.3)), "share_sets": "iter" if r.random() < 0.1 else False}
         if name in ("add_weighted_simplices_from", "add_weighted_edges_from"):
             wname, items, at = self.witems()
             return {"op": name, "weight": wname, "items": items, "max_order": r.choice(MAX_ORDERS), "attr": enc_attrs_req(at)}
@@ -229,7 +229,7 @@ def _plain(S, op):
             op["idx"] = "$auto"                                # idx=None *is* the automatic id
         return getattr(S, name)(ms, **kw, **A(op["attr"]))
     if name in ("add_simplices_from", "add_edges_from"):
-        return getattr(S, name)(hg._ebunch(op["fmt"], op["items"]), max_order=op["max_order"], **A(op["attr"]))
+        return getattr(S, name)(hg._ebunch(op["fmt"], op["items"], op.get("share_sets", False)), max_order=op["max_order"], **A(op["attr"]))
     if name in ("add_weighted_simplices_from", "add_weighted_edges_from"):
         eb = [[dec_id(m) for m in it["members"]] + [it["attr"][0][1]] for it in op["items"]]
         return getattr(S, name)(eb, max_order=op["max_order"], weight=op["weight"], **A(op["attr"]))
@@ -334,7 +334,7 @@ def snapshot(S, out="ok"):
 
 
 def to_request(op):
-    return {k: v for k, v in op.items() if k not in ("weight",)}
+    return {k: v for k, v in op.items() if k not in ("weight", "share_sets")}
 
 
 def nontrivial(snap, kinds):
